@@ -900,6 +900,11 @@ impl IfStatement {
         let mut true_table = AssignTable::new(context);
         let mut false_table = AssignTable::new(context);
 
+        // The condition reads its operands before either branch runs: record
+        // them so that never-assigned bits read only here are reported and a
+        // later write in the same always_comb counts as read-before-assign.
+        self.cond.eval_assign(context, assign_table, assign_context);
+
         std::mem::swap(&mut true_table.refernced, &mut assign_table.refernced);
 
         let base_tables = if assign_table.table.is_empty() {
@@ -1203,6 +1208,15 @@ impl CaseStatement {
         assign_context: AssignContext,
         base_tables: &[&AssignTable],
     ) {
+        // The selector and the arm patterns are read before any arm runs.
+        self.case_target
+            .eval_assign(context, assign_table, assign_context);
+        for arm in &self.arms {
+            for pattern in &arm.patterns {
+                pattern.for_each_expr(|e| e.eval_assign(context, assign_table, assign_context));
+            }
+        }
+
         // Detach `refernced` before borrowing `assign_table` for base_tables.
         let mut prev_referenced = std::mem::take(&mut assign_table.refernced);
 
